@@ -163,7 +163,7 @@ def split_params(ftype):
 
 def ast_cache_key():
     srcs = vf.repo_sources() + [INST, os.path.abspath(__file__)]
-    return vf.file_hash(srcs, "c16-objmodel-v12")
+    return vf.file_hash(srcs, "c16-objmodel-v13")
 
 
 def dump_ast():
@@ -940,6 +940,97 @@ def src_members(e, param_id, fn):
     return out
 
 
+SHARING_TAGS = ("givNoCopy",)                       # Array0(p, givNoCopy): reference-counted alias of p's block
+SHARING_CALLS = ("logcopy",)                        # Array0::logcopy(src): the same, as a member
+SHARING_WRAPPERS = ("reference_wrapper", "std::ref", "std::cref")
+
+
+def _mentions_ref_param(n, only=None):
+    """names of the reference / pointer parameters (of the function being analysed) mentioned in expression n"""
+    out = []
+    def rec(x):
+        if x.get("kind") == "DeclRefExpr" and x.get("referencedDecl", {}).get("kind") == "ParmVarDecl":
+            r = x["referencedDecl"]
+            t = r.get("type", {}).get("qualType", "")
+            if ("&" in t or "*" in t or "[" in t) and (only is None or r.get("id") in only):
+                out.append((r.get("id"), r.get("name")))
+        for c in kids(x):
+            rec(c)
+    rec(n)
+    return out
+
+
+def _sharing_form(sub, field_type):
+    """how an initialiser / right-hand side binds the member to (part of) the expression: None = by value"""
+    txt = []
+    def rec(x):
+        k = x.get("kind")
+        if k in ("CXXConstructExpr", "CXXTemporaryObjectExpr") and any(t in x.get("ctorType", {}).get("qualType", "") for t in SHARING_TAGS):
+            txt.append("logical copy (givNoCopy)")
+        if k in ("CallExpr", "CXXConstructExpr", "CXXFunctionalCastExpr") and any(w in (qt(x) + " " + str(_callee_name(kids(x)[0]) if kids(x) else "")) for w in SHARING_WRAPPERS):
+            txt.append("reference wrapper")
+        for c in kids(x):
+            rec(c)
+    for x in sub:
+        rec(x)
+    if txt:
+        return txt[0]
+    ft = (field_type or "").rstrip()
+    if ft.endswith("&"):
+        return "reference member bound to the argument"
+    if ft.endswith("*") or ft.endswith("* const"):
+        return "pointer member set from the argument"
+    return None
+
+
+def arg_sharing(idx, an, node, ftypes, depth=0, only=None):
+    """[(member, parameter name, form)]: members of `this` that, after `node` (a constructor or a setter), share storage with an
+    ARGUMENT passed by reference / pointer: initialised through a sharing form (givNoCopy, logcopy, reference / pointer capture,
+    reference wrapper) instead of a value copy.  Calls to own members with a body are followed (the argument passed on)."""
+    out = []
+    fn = an.info(node)
+    for ini in kids(node):
+        if ini.get("kind") == "CXXCtorInitializer" and "anyInit" in ini:
+            nm = ini["anyInit"].get("name")
+            ps = [n for x in kids(ini) for n in _mentions_ref_param(x, only)]
+            form = _sharing_form(kids(ini), ftypes.get(nm, ini["anyInit"].get("type", {}).get("qualType", "")))
+            if ps and form:
+                out.append((nm, ps[0][1], form))
+    def rec(n):
+        k = n.get("kind")
+        s = kids(n)
+        if k in ("CXXMemberCallExpr", "CXXOperatorCallExpr", "CallExpr") and s:
+            cname = _callee_name(s[0])
+            cid, recv = _callee_id(n)
+            rp = access_path(recv, fn) if recv is not None else None
+            args = s[1:] if k != "CXXOperatorCallExpr" else s[2:]
+            ps = [p for a in args for p in _mentions_ref_param(a, only)]
+            if cname in SHARING_CALLS and rp is not None and rp.root == "this" and rp.members and ps:
+                out.append((rp.members[0], ps[0][1], "logical copy (%s)" % cname))
+            elif ps and depth < 3 and ((recv is None and k != "CallExpr") or (recv is None and an._is_method_of_same_object(cid)) or
+                                       (rp is not None and rp.root == "this" and not rp.members)):
+                b = idx.body(cid) if cid else None
+                if b is not None and b.get("kind") == "CXXMethodDecl" and b["id"] != node["id"]:
+                    out.extend((m, ps[0][1], f + " via " + (b.get("name") or "?")) for m, _, f in arg_sharing(idx, an, b, ftypes, depth + 1))
+        if k in ("BinaryOperator",) and n.get("opcode") == "=" and len(s) == 2:
+            lp = access_path(s[0], fn)
+            ps = _mentions_ref_param(s[1], only)
+            if lp is not None and lp.root == "this" and len(lp.members) == 1 and not lp.deref and ps:
+                ft = ftypes.get(lp.members[0], "").rstrip()
+                if ft.endswith("*") or ft.endswith("* const"):
+                    out.append((lp.members[0], ps[0][1], "pointer member set from the argument"))
+        for c in s:
+            rec(c)
+    for c in kids(node):
+        if c.get("kind") == "CompoundStmt":
+            rec(c)
+    uq = []
+    for x in out:
+        if x not in uq:
+            uq.append(x)
+    return uq
+
+
 def copy_ctor_map(idx, an, c, ctor, fields, depth=0):
     """member -> ('src', m) | ('default',) | ('own', m) | ('other', text)"""
     fn = an.info(ctor)
@@ -968,6 +1059,9 @@ def copy_ctor_map(idx, an, c, ctor, fields, depth=0):
                 mp[nm] = ("own", ".".join(owns[0]))
             else:
                 mp[nm] = ("other", "%d source members" % len(srcs))
+            shf = _sharing_form(sub, None)
+            if shf and "givNoCopy" in shf and srcs:
+                mp[nm] = ("other", "%s of the source's %s: storage shared with the source, not a value copy" % (shf, ".".join(srcs[0])))
         elif "baseInit" in ini:
             bc = idx.find_class_by_type(ini["baseInit"].get("desugaredQualType") or ini["baseInit"].get("qualType", ""))
             passes = False
@@ -1345,6 +1439,27 @@ def describe_class(idx, an, disp, c):
         elif not any(m_["name"] == st["fn"] and any(x["k"] == "static_local" and x["member"] == st["var"] for x in m_["writes"]) for m_ in mdesc):
             mdesc.append({"name": st["fn"], "sig": st["sig"][:160], "params": "[pattern]", "cls": st["cls"], "mut_writes": [], "access": "public",
                           "const": st["const"], "static": False, "reads": [], "writes": [w], "line": st["line"], "uid": "%s@pattern:%s" % (st["fn"], st["var"]), "pattern": True})
+    # members that share storage with an ARGUMENT of a constructor / of a public non-const member (setter): an object outside the lineage
+    ftypes = {f["name"]: f.get("type", "") for f in fields}
+    shared_args = []
+    for cls in [c] + bases:
+        for m, kind in idx.ctors_of(cls):
+            b = idx.body(m["id"])
+            if kind == "pattern" or b is None or is_copy_param(idx, m, cls.get("name")):
+                continue
+            pl, _ = split_params(qt(b))
+            for mem_, par_, form in arg_sharing(idx, an, b, ftypes):
+                if mem_ in fnames:
+                    shared_args.append({"member": mem_, "where": "%s::%s(%s)" % (cls.get("name"), cls.get("name"), ",".join(norm(x) for x in pl)), "param": par_, "form": form})
+    for cls, b in meths:
+        fi = an.info(b)
+        if fi.is_const or b.get("storageClass") == "static" or (ACCESS.get(b["id"]) or "public") != "public":
+            continue
+        pl, _ = split_params(qt(b))
+        for mem_, par_, form in arg_sharing(idx, an, b, ftypes):
+            if mem_ in fnames:
+                shared_args.append({"member": mem_, "where": "%s::%s(%s)" % (cls.get("name"), b.get("name"), ",".join(norm(x) for x in pl)), "param": par_, "form": form})
+    d["arg_shared"] = shared_args
     d["ctors"] = ctors
     d["ctor_writes"] = ceff
     d["ctors_unanalysed"] = unanalysed
@@ -1501,6 +1616,7 @@ def scan_kronecker():
     d["methods"] = methods
     d["reads"] = sorted(set(r for m_ in methods for r in m_["reads"]))
     d.setdefault("ctor_writes", [])
+    d["arg_shared"] = []
     d["ctors"], d["ctors_unanalysed"], d["benign_statics"] = [], ["(source scan: constructors scanned for function-local statics only)"], []
     d["param_members"] = []
     d["init_kinds"] = {f["name"]: "param" for f in members}
@@ -1656,6 +1772,7 @@ class Mirror:
                 for e in self.eff[id(m)]:
                     if e[0] in ("WOwn", "WRandom"):
                         self.written.add(e[1])
+        self.arg_shared = sorted(set(x["member"] for x in (d.get("arg_shared") or [])))
         self.ctor_eff = ctor_effects_of(d)
         self.params = set(d.get("param_members") or [])
         self.kinds = d.get("init_kinds") or {}
@@ -1707,11 +1824,14 @@ class Mirror:
         v = self.lookup(self.am, x)
         return v is not None and v[:2] == ["src", x]
 
+    def arg_shared_offenders(self):
+        return [x for x in self.arg_shared if any(self.claimed(m) and x in m["reads"] for m in self.d["methods"])]
+
     def ctor_ok(self, x):
         return x not in self.params or self.ctor_pure()
 
     def stable(self, x):
-        return self.copy_ok(x) and self.assign_ok(x) and x not in self.written and self.ctor_ok(x)
+        return self.copy_ok(x) and self.assign_ok(x) and x not in self.written and self.ctor_ok(x) and x not in self.arg_shared
 
     def rc_ok(self):
         sh = self.d.get("shared_heap_members") or []
@@ -1792,6 +1912,8 @@ class Mirror:
                 r.append(("reads-member-not-assigned", x))
             if x in self.written:
                 r.append(("reads-member-written-on-const-path", x))
+            if x in self.arg_shared:
+                r.append(("reads-member-sharing-storage-with-an-argument", x))
             if not self.ctor_ok(x):
                 for e in self.ctor_eff:
                     if e[0] != "RExcluded":
@@ -1866,6 +1988,7 @@ def emit_coq(descs, meta):
         out.append("  cd_params := %s;" % coq_list([coq_str(r) for r in (d.get("param_members") or [])]))
         out.append("  cd_init := %s;" % coq_list(["(%s, %s)" % (coq_str(m), mir.init_kind(m)) for m in members]))
         out.append("  cd_ctor_effects := %s;" % coq_list([effstr(e) for e in ctor_effects_of(d)]))
+        out.append("  cd_arg_shared := %s;" % coq_list([coq_str(x) for x in mir.arg_shared]))
         out.append("  cd_copy_effects := %s;" % coq_list([effstr(e) for e in copy_effects_of(d)]))
         out.append("  cd_rc := %s;" % rcs)
         out.append("  cd_methods := %s" % ("[\n    " + ";\n    ".join(meths) + "]" if meths else "[]"))
@@ -1877,9 +2000,10 @@ def emit_coq(descs, meta):
 
 def emit_decide(descs):
     """gen/Decide.v: the per-class decisions, computed here and RE-COMPUTED by Coq (vm_compute) from gen/Desc.v"""
-    sc, rf, cp, rc, mu, ct, ini = [], [], [], [], [], [], []
+    sc, rf, cp, rc, mu, ct, ini, ash = [], [], [], [], [], [], [], []
     for d in descs:
         mi = Mirror(d)
+        ash.append("(%s, %s)" % (coq_str(d["name"]), coq_list([coq_str(x) for x in mi.arg_shared_offenders()])))
         ct.append("(%s, %s)" % (coq_str(d["name"]), "true" if mi.ctor_pure() else "false"))
         ini.append("(%s, %s)" % (coq_str(d["name"]), "true" if mi.init_consistent() else "false"))
         sc.append("(%s, %s)" % (coq_str(d["name"]), coq_list([coq_str(mname(m)) for m in mi.sc_offenders()])))
@@ -1913,6 +2037,9 @@ def emit_decide(descs):
         "   constructor, members the copy constructor default-initialises are default-initialised by every constructor *)",
         "Definition Decide_init_stmt : Prop := map (fun d => (cd_name d, init_consistent_b d)) all_descs =\n   [" + sep.join(ini) + "].",
         "Lemma decide_init : Decide_init_stmt.", "Proof. vm_compute. reflexivity. Qed.", "",
+        "(* members that share storage with an argument of a constructor / setter (givNoCopy, logcopy, reference / pointer capture): an object outside the lineage *)",
+        "Definition Decide_args_stmt : Prop := map (fun d => (cd_name d, arg_shared_offenders d)) all_descs =\n   [" + sep.join(ash) + "].",
+        "Lemma decide_args : Decide_args_stmt.", "Proof. vm_compute. reflexivity. Qed.", "",
         "(* the premises of the generic theorem C16_self_contained that are decided on the description, for every class at once",
         "   (the classes listed here are the exceptions: a mutator offender or an inconsistent constructor description) *)",
         "Definition decided_exceptions : list string := " + coq_list([coq_str(d["name"]) for d in descs if Mirror(d).mutator_offenders() or not Mirror(d).init_consistent()]) + ".",
@@ -1939,6 +2066,7 @@ if __name__ == "__main__":
         print("   rf offenders:", [(mname(m), mi.eff[id(m)]) for m in mi.rf_offenders()])
         print("   randomised:", [mname(m) for m in d["methods"] if m["const"] and mi.randomized(m)])
         print("   param members:", d.get("param_members"), " mutators:", [(mname(m), m.get("mut_writes"), mi.mutator_missing(m)) for m in d["methods"] if mi.is_mutator(m)])
+        print("   args shared:", d.get("arg_shared"))
         print("   ctor effects:", mi.ctor_eff, " init kinds:", d.get("init_kinds"), " init offenders:", mi.init_offenders())
         print("   ctors:", [(x["cls"], x["params"][:60], [w["member"] for w in x["writes"]]) for x in d.get("ctors", [])], " unanalysed:", d.get("ctors_unanalysed"), " benign statics:", d.get("benign_statics"))
         print("   rc:", d.get("rc") and d["rc"]["assign_order"], "rc_ok", mi.rc_ok(), "shared:", d.get("shared_heap_members"), "copy-effects:", copy_effects_of(d))
